@@ -326,7 +326,42 @@ pub fn run(ctx: &'static Ctx) -> (&'static str, Value, Vec<&'static str>) {
             st
         })
         .reduce(Stats::new, Stats::merge);
-    let stats = stats.merge(s1).merge(s2).merge(s3);
+    let mut s4 = Stats::new();
+    {
+        use crate::guard::{short_read_check, SplitReader};
+        for plan in 0..3u8 {
+            let bytes: Vec<u8> = (0..28u32).map(|i| if plan == 0 { (i * 7 + 13) as u8 } else if plan == 1 { !((i * 7 + 13) as u8) } else { (i * 37 + 101) as u8 }).collect();
+            let n = short_read_check(
+                ctx,
+                "decode_message_header",
+                &bytes,
+                true,
+                |r: &mut SplitReader| dm::decode_message_header(r).ok().map(|h| (h.segment_size, h.redundant_channel, h.message_type, h.sequence_number, h.date, h.time, h.segment_count, h.segment_number)),
+                |shape| json!({"op": "short_read", "plan": plan, "boundaries": shape.0, "max_chunk": shape.1}),
+            );
+            s4.evaluations += n;
+            s4.count("short_read_shapes", n);
+        }
+    }
+    // history: accessor results must not depend on the header examined just before
+    let hdrs: Vec<(u8, u16, u16, u16)> = vec![(2, 1208, 1, 1), (31, 0xFFFF, 1, 2), (15, 0xFFFF, 7, 9), (2, 0x8000, 3, 3), (0, 0, 0, 0), (18, 0xFFFE, 0xFFFF, 0xFFFF), (31, 600, 2, 1)];
+    let sh = history_check(
+        ctx,
+        "message_header_accessors",
+        hdrs.len(),
+        3,
+        |i| {
+            let (t, sz, c, n) = hdrs[i];
+            let mut h = MsgHeader::simple(t, 19000 + i as u16, 1000 * i as u32);
+            h.size = sz;
+            h.count = c;
+            h.number = n;
+            let d = decode(&h);
+            format!("{:?}", guarded(|| (d.segmented(), d.segment_count(), d.segment_number(), d.message_size_bytes(), d.message_type(), d.date_time().map(|x| x.timestamp_millis()))))
+        },
+        |i| format!("header{:?}", hdrs[i]),
+    );
+    let stats = stats.merge(s1).merge(s2).merge(s3).merge(s4).merge(sh);
     let cov = stats.coverage(
         "all 256 type codes; six channel codes; 5 layout plans; all 65536 size values x 7x7 boundary (count, number) pairs; for size 0xFFFF (thorough: +63 sizes) all 65536 counts x 7 numbers and 7 counts x all 65536 numbers. non-trivial = distinct code / size value / plane coordinate",
         true,
@@ -354,6 +389,9 @@ pub fn replay(ctx: &'static Ctx, case: &Value) {
             &mut st,
         ),
         Some("sizes") if false => {}
+        Some("history") | Some("short_read") => {
+            let _ = run(ctx);
+        }
         Some("type") => check_type(ctx, case["code"].as_u64().unwrap_or(0) as u8, &mut st),
         Some("layout") => check_layout(ctx, case["plan"].as_u64().unwrap_or(0) as u8, &mut st),
         _ => check_channels(ctx, &mut st),
